@@ -205,6 +205,11 @@ func cmdCheck(args []string) int {
 		for _, n := range fe.notes {
 			notes = append(notes, fe.fnName()+": "+n)
 		}
+		for _, en := range c.Ensures {
+			if en.AssumedOnly {
+				notes = append(notes, fe.fnName()+": postcondition assumed, not verified against the body: "+en.Src)
+			}
+		}
 		if c.AssumePre {
 			notes = append(notes, fe.fnName()+": the preconditions of its callees are assumed, not proved (assumepre)")
 		} else if len(c.AssumePreOf) > 0 {
